@@ -6,6 +6,7 @@ exit 1  VIOLATION property=<id> replay=<path> [no-failing-input-found]
 exit 2  UNDECIDED (timeout, tool error, lowering must-fire miss, vacuity guard)  -- never a VIOLATION line
 """
 import argparse
+import threading
 import concurrent.futures as cf
 import glob
 import hashlib
@@ -88,6 +89,9 @@ class Undecided(Exception):
     pass
 
 
+AST_LOCK = threading.RLock()
+
+
 class Ctx:
     def __init__(self):
         self.configs = load_json(os.path.join(ROOT, 'configs.json'))
@@ -103,6 +107,7 @@ class Ctx:
                              file_hash(os.path.join(ROOT, 'tools', 'cxxtypes.py')))
         self.asts = {}
         self.lowerers = {}
+        self.loops_dropped = {}
         self.cmdlog = []
 
     # ---------------------------------------------------------------- AST + lowering
@@ -115,6 +120,10 @@ class Ctx:
         return sha(self.src_hash, file_hash(os.path.join(ROOT, 'tu', tu + '.cpp')), json.dumps(self.configs[cfg]))
 
     def ensure_ast(self, tu, cfg):
+        with AST_LOCK:
+            return self._ensure_ast(tu, cfg)
+
+    def _ensure_ast(self, tu, cfg):
         path = self.ast_path(tu, cfg)
         keyf = path + '.key'
         key = self.ast_key(tu, cfg)
@@ -135,6 +144,10 @@ class Ctx:
         return path
 
     def lowerer(self, tu, cfg):
+        with AST_LOCK:
+            return self._lowerer(tu, cfg)
+
+    def _lowerer(self, tu, cfg):
         import ajlower
         k = (tu, cfg)
         if k not in self.lowerers:
@@ -147,21 +160,22 @@ class Ctx:
         os.makedirs(d, exist_ok=True)
         return d
 
-    def lower_unit(self, unit, cfg):
+    def lower_unit(self, unit, cfg, drop_loops=False):
         """returns dir with lowered.c, funcs.json, shim.cpp (cached)"""
         import ajlower
         d = self.unit_dir(unit, cfg)
-        loops_file = os.path.join(ROOT, unit['loops']) if unit.get('loops') else None
+        lf = (unit.get('loops_by_config') or {}).get(cfg) or unit.get('loops')
+        loops_file = os.path.join(ROOT, lf) if lf else None
         key = sha(self.ast_key(unit.get('tu', 'all'), cfg), self.tool_hash,
                   json.dumps({k: unit.get(k) for k in ('roots', 'stubs', 'shim')}, sort_keys=True),
-                  file_hash(loops_file) if loops_file else '')
+                  (file_hash(loops_file) if loops_file else '') + ('|noloops' if drop_loops else ''))
         keyf = os.path.join(d, 'lowered.key')
         if os.path.exists(keyf) and open(keyf).read() == key and os.path.exists(os.path.join(d, 'lowered.c')):
             return d
         L = self.lowerer(unit.get('tu', 'all'), cfg)
         L.reset_emission()
         L.stub_names = set(unit.get('stubs', ()))
-        L.loop_contracts = load_json(loops_file) if loops_file else {}
+        L.loop_contracts = load_json(loops_file) if (loops_file and not drop_loops) else {}
         try:
             for r in unit['roots']:
                 sig = None
@@ -182,6 +196,11 @@ class Ctx:
             shim = L.emit_shim(unit.get('shim', {}))
             types_h = L.output(types_only=True)
         except ajlower.LowerError as e:
+            if loops_file and not drop_loops and 'loop' in str(e):
+                # the code no longer has the loop structure / locals the loop contracts were written for: lower without them;
+                # the obligations of this unit then fall back to the bounded counterexample search (never a pass)
+                self.loops_dropped[(unit['unit'], cfg)] = str(e)
+                return self.lower_unit(unit, cfg, drop_loops=True)
             raise Undecided('lowering of unit %s [%s] failed: %s' % (unit['unit'], cfg, e))
         open(os.path.join(d, 'lowered.c'), 'w').write(text)
         open(os.path.join(d, 'shim.cpp'), 'w').write(shim)
@@ -283,6 +302,8 @@ def run_obligation(ctx, unit, ob, cfg, tier, canary=False, want_trace=False, cov
            'mode': ob.get('mode', 'plain'), 'canary': canary, 'is_cover': cover, 'cmds': []}
     if ob.get('kind') == 'census':
         return run_census(ctx, unit, ob, cfg, res, canary)
+    if ob.get('kind') == 'callgraph':
+        return run_callgraph(ctx, unit, ob, cfg, res, canary)
     d = ctx.unit_dir(unit, cfg)
     tag = ob['id'] + ('.canary' if canary else '') + ('.cover' if cover else '') + ('.search' if search else '')
     spec = os.path.join(ROOT, unit['spec'])
@@ -326,9 +347,9 @@ def run_obligation(ctx, unit, ob, cfg, tier, canary=False, want_trace=False, cov
             res.update(status='undecided', reason='goto-instrument --dfcc failed/timeout: ' + out[-2500:])
             return res
         cur = c
-    flags = list(CBMC_BASE) + ob.get('cbmc', [])
+    flags = (['--bounds-check', '--pointer-check'] if search else list(CBMC_BASE)) + ob.get('cbmc', [])
     if search:
-        flags += ['--unwind', str(ob.get('search_unwind', 10)), '--no-unwinding-assertions']
+        flags += ['--unwind', str(ob.get('search_unwind', 6)), '--no-unwinding-assertions']
     elif ob.get('unwind'):
         flags += ['--unwind', str(ob['unwind']), '--unwinding-assertions']
     solver = ob.get('solver')
@@ -390,6 +411,89 @@ def run_obligation(ctx, unit, ob, cfg, tier, canary=False, want_trace=False, cov
         res['wall_s'] = round(time.time() - t0, 2)
         return res
     res.update(status='undecided', reason='cbmc rc=%s: %s' % (rc, out[-1500:]))
+    return res
+
+
+def run_callgraph(ctx, unit, ob, cfg, res, canary):
+    """C15 supporting static fact from the same clang AST: in the call graph of the deserializer entry points, the only functions on a
+    cycle are the container/variant routines whose contracts prove that every cycle decrements the nesting limit."""
+    import ajlower
+    t0 = time.time()
+    AST_LOCK.acquire()
+    try:
+        L = ctx.lowerer(unit.get('tu', 'all'), cfg)
+        L.reset_emission()
+        for r in unit['roots']:
+            sig = None
+            if '|' in r:
+                r, sig = r.split('|', 1)
+            defs = L.find_functions(r, sig)
+            if len(defs) != 1:
+                raise ajlower.LowerError('root %s: %d definitions' % (r, len(defs)))
+            L.require(defs[0]['id'])
+        L.lower_all()
+        nodes = set(L.emitted)
+        edges = set(L.call_edges)
+    except (ajlower.LowerError, Undecided) as e:
+        res.update(status='undecided', reason='call graph extraction failed: %s' % e)
+        return res
+    finally:
+        AST_LOCK.release()
+    os.makedirs(ctx.unit_dir(unit, cfg), exist_ok=True)
+    adj = {}
+    for a, b in edges:
+        if a in nodes and b in nodes:
+            adj.setdefault(a, set()).add(b)
+    # Tarjan SCC
+    index = {}
+    low = {}
+    stack = []
+    onstack = set()
+    sccs = []
+    counter = [0]
+    sys.setrecursionlimit(10000)
+
+    def strong(v):
+        index[v] = low[v] = counter[0]
+        counter[0] += 1
+        stack.append(v)
+        onstack.add(v)
+        for w in adj.get(v, ()):
+            if w not in index:
+                strong(w)
+                low[v] = min(low[v], low[w])
+            elif w in onstack:
+                low[v] = min(low[v], index[w])
+        if low[v] == index[v]:
+            comp = []
+            while True:
+                w = stack.pop()
+                onstack.discard(w)
+                comp.append(w)
+                if w == v:
+                    break
+            sccs.append(comp)
+    for v in sorted(nodes):
+        if v not in index:
+            strong(v)
+    allow = [re.compile(x) for x in ob.get('allow_recursive', [])]
+    if canary:
+        allow = []
+    cyclic = []
+    for comp in sccs:
+        if len(comp) > 1 or comp[0] in adj.get(comp[0], ()):
+            cyclic.extend(comp)
+    bad = [f for f in cyclic if not any(a.fullmatch(f) for a in allow)]
+    res['properties'] = len(nodes)
+    res['user_props'] = len(nodes)
+    res['failed_props'] = [{'name': 'callgraph.' + f, 'line': '0', 'desc': 'function %s is on a recursive cycle but is not one of the routines whose contracts bound the recursion by the nesting limit' % f, 'res': 'FAILURE'} for f in sorted(bad)]
+    res['sample_props'] = ['recursive (allowed): ' + f for f in sorted(cyclic)[:6]]
+    res['solver_s'] = round(time.time() - t0, 2)
+    res['backend'] = 'call graph of %d lowered functions, %d edges, %d on cycles' % (len(nodes), len(edges), len(cyclic))
+    res['cmds'].append('callgraph over lowered closure of %s' % unit['roots'])
+    res['status'] = 'failed' if bad else 'proved'
+    if bad:
+        res['cbmc_tail'] = '\n'.join(p['desc'] for p in res['failed_props'])
     return res
 
 
@@ -579,11 +683,12 @@ def run_property(prop, tier, seed, jobs_n):
         if k in lowered:
             continue
         try:
-            lowered[k] = 'census' if u.get('kind') == 'census' else ctx.lower_unit(u, cfg)
+            lowered[k] = 'census' if u.get('kind') in ('census', 'callgraph') else ctx.lower_unit(u, cfg)
         except Undecided as e:
             lowered[k] = None
             undecided.append({'unit': u['unit'], 'config': cfg, 'reason': str(e)})
-    ctx.lowerers.clear()
+    if not any(u.get('kind') == 'callgraph' for u, ob, cfg in jobs):
+        ctx.lowerers.clear()
     results = []
     canaries = []
     covers = []
@@ -618,6 +723,30 @@ def run_property(prop, tier, seed, jobs_n):
             if r.get('status') == 'proved':
                 expected['%s/%s/%s' % (r['unit'], r['ob'], r['config'])] = {'user': r.get('user_props', 0), 'total': r['properties']}
         json.dump(expected, open(exp_path, 'w'), indent=1, sort_keys=True)
+    # fallback for units whose loop contracts could not be spliced / instrumented on this tree (the loop structure changed):
+    # bounded counterexample search with the same harness; only a natively reproduced failure becomes a violation
+    for r in results:
+        u = ctx.units[r['unit']]
+        if not (u.get('loops') or u.get('loops_by_config')):
+            continue
+        dropped = (r['unit'], r['config']) in ctx.loops_dropped
+        instr_failed = r['status'] == 'undecided' and ('apply-loop-contracts failed' in (r.get('reason') or '') or 'goto-cc failed' in (r.get('reason') or ''))
+        if not (dropped or instr_failed):
+            continue
+        ob = [o for o in u['obligations'] if o['id'] == r['ob']][0]
+        why = ctx.loops_dropped.get((r['unit'], r['config'])) or r.get('reason')
+        if instr_failed and not dropped:
+            try:
+                ctx.lower_unit(u, r['config'], drop_loops=True)
+            except Undecided:
+                continue
+        sr = run_obligation(ctx, u, ob, r['config'], tier, False, True, False, True)
+        if sr.get('status') == 'failed' and sr.get('trace_inputs'):
+            r.update(status='failed', failed_props=sr.get('failed_props'), trace_inputs=sr['trace_inputs'], cbmc_tail=sr.get('cbmc_tail'),
+                     search={'unwind': ob.get('search_unwind', 6), 'failed_checks': sr.get('failed_props'), 'loop_contracts_not_applicable': (why or '')[:300]},
+                     search_only=True)
+        else:
+            r.update(status='undecided', reason='loop contracts do not apply to this tree (%s); bounded search (unwind %s) found no failure' % ((why or '')[:200], ob.get('search_unwind', 6)))
     known = load_known()
     violations = []
     known_hits = []
@@ -676,13 +805,13 @@ def run_property(prop, tier, seed, jobs_n):
         ob = [o for o in u['obligations'] if o['id'] == r['ob']][0]
         native = None
         reproduced = False
-        if u.get('loops') and not ob.get('no_loop_contracts') and ob.get('mode') != 'dfcc':
+        if (u.get('loops') or u.get('loops_by_config')) and not ob.get('no_loop_contracts') and ob.get('mode') != 'dfcc' and not r.get('search_only'):
             # a loop-contract counterexample may start from an unreachable havocked state: look for a reachable one
             # with the same harness, loops unwound a few times instead of abstracted (bounded counterexample search)
             sr = run_obligation(ctx, u, ob, r['config'], tier, False, True, False, True)
             if sr.get('status') == 'failed' and sr.get('trace_inputs'):
                 r['trace_inputs'] = sr['trace_inputs']
-                r['search'] = {'unwind': ob.get('search_unwind', 10), 'failed_checks': sr.get('failed_props')}
+                r['search'] = {'unwind': ob.get('search_unwind', 6), 'failed_checks': sr.get('failed_props')}
         cb_descs = [p['desc'] for p in r.get('failed_props', [])] + [p['desc'] for p in (r.get('search') or {}).get('failed_checks', [])]
         if r.get('trace_inputs') is not None and u.get('native', True):
             try:
@@ -694,6 +823,10 @@ def run_property(prop, tier, seed, jobs_n):
                 native = {'error': str(e)[-2000:]}
         modular = bool(ob.get('replace')) or (bool(u.get('loops')) and not ob.get('no_loop_contracts')) or ob.get('mode') == 'dfcc'
         path = write_replay(prop, r, native)
+        if r.get('search_only') and not reproduced:
+            undecided.append({'unit': r['unit'], 'ob': r['ob'], 'config': r['config'],
+                              'reason': 'loop contracts do not apply to this tree and the bounded counterexample was not reproduced on the real code; see ' + path})
+            continue
         if reproduced:
             viol_lines.append('VIOLATION property=%s replay=%s' % (prop, path))
         elif native is not None and 'error' not in native and not modular and not native.get('exhausted') and not native.get('assume_failed'):
